@@ -223,6 +223,12 @@ func (c *Conversation) processTLVs(tlvs []tlv, x dataMessageExtra) ([]tlv, error
 		if toSend != nil {
 			retTLVs = append(retTLVs, *toSend)
 		}
+
+		if t.tlvType == tlvTypeDisconnected {
+			// the session this block belongs to is over: whatever follows
+			// has no session to act on
+			break
+		}
 	}
 
 	return retTLVs, nil
